@@ -29,6 +29,13 @@ FAMILIES = {
         {'family': 'core', 'knobs': {'p_cancel': 0.35, 'kinds': ['rr', 'stream', 'stream', 'channel', 'channel']}, 'quick': 400,
          'thorough': 6000},
     ],
+    'C11': [
+        {'family': 'cut', 'knobs': {}, 'quick': 500, 'thorough': 8000},
+    ],
+    'C12': [
+        {'family': 'hostile', 'knobs': {}, 'quick': 500, 'thorough': 8000},
+        {'family': 'hostile', 'knobs': {'p_raise': 0.8}, 'quick': 200, 'thorough': 3000, 'first': 100000},
+    ],
     'C10': [
         {'family': 'core', 'knobs': {'p_cancel': 0.15, 'p_error': 0.15}, 'quick': 400, 'thorough': 6000},
     ],
